@@ -51,7 +51,7 @@ class C11(Prop):
                    'cross-validated against gloo (gloo has no reduce_scatter)',
                    'tolerance: 16 sqrt(n) eps32 kappa accumulated over steps; looser than 5e-2 counts as trivial']
     examples = {'quick': 110, 'thorough': 500}
-    shards = {'quick': 4, 'thorough': 16}
+    shards = {'quick': 8, 'thorough': 16}
     shrink_budget_s = {'quick': 30.0, 'thorough': 180.0}
     required_labels = {'quick': ['nontrivial=True', 'model=2', 'clip=active', 'bias_free_col=True'],
                        'thorough': ['nontrivial=True', 'model=2', 'model=3', 'model=4', 'clip=active', 'bias_free_col=True']}
